@@ -1,6 +1,6 @@
-(* Extraction of the C03 model (history checker). ExtrOcamlBasic only; numbers stay Coq inductives. *)
+(* Extraction of the C01 (Cluster) model. ExtrOcamlBasic only; numbers stay Coq inductives. *)
 From Coq Require Import Extraction ExtrOcamlBasic.
-From BLB Require Import C03.Model C03.Wire.
+From BLB Require Import C01.Model.
 Extraction Language OCaml.
 Set Extraction Output Directory ".".
 Extraction "model.ml" run_case.
